@@ -11,7 +11,8 @@ package main
 //    the selector/iterator SSA for logs of 0..12 abstract entries, composed with the call
 //    sites in ListEvents),
 // D5 invalid-range errors propagate (A3),
-// D6 the RPC handlers list previous events exactly when since_now is unset.
+// D6 the RPC handlers list previous events exactly when since_now is unset,
+// D7 replayed events are not lost between the forwarding goroutine and the send loop.
 
 import (
 	"fmt"
@@ -40,10 +41,11 @@ func init() {
 			"(D3) for each handler, the parameter check it calls, composed with the request fields given at the call site, is evaluated for all 32 combinations of (since_id set, until_id set, since_now, until_now, reverse_order) and fails exactly where DESIGN.md B.2 requires; its error is enforced before the listing. " +
 			"(D4) for each store, the range selector and the iterator are evaluated exhaustively on abstract logs of 0..12 distinct entries (oldest first) for every (since, until) in {unset, each entry, unknown identifier} and both values of reverse, with the arguments composed as ListEvents passes them: the selected entries are exactly the inclusive range, an unknown identifier or since-after-until gives an error carrying ErrInvalidRange, and the iterator visits every selected entry once in forward order, or exactly reversed when reverse is set. " +
 			"(D5) ListEvents returns the selector's error; the handlers return ListEvents' error. (D6) the handlers call ListEvents exactly when since_now is unset and on no other request field. " +
-			"Not decided: that Values() itself is a correct, replica-independent linearisation (go-ipfs-log, trusted at its documented API); that entries which fail to open are skipped without disturbing the order of the others; the interleaving of replayed and live events in the RPC stream; behaviour for logs above 12 entries beyond what the size-independent evaluation suggests; concurrent appends during a listing.",
+			"(D7) in each handler, a channel that hands replayed events from a forwarding goroutine to the loop that calls the stream's Send is a rendez-vous channel (constant capacity 0) whenever the forwarder signals completion out of band, i.e. calls the cancel function of a context whose Done() the send loop selects on next to that channel and answers by returning: with a buffer the cancel can overtake queued events and the stream ends without its last events; completion signalled in band (sentinel, close) carries no such requirement. " +
+			"Not decided: that Values() itself is a correct, replica-independent linearisation (go-ipfs-log, trusted at its documented API); that entries which fail to open are skipped without disturbing the order of the others; the interleaving of replayed and live events in the RPC stream (D7 only excludes the loss of queued replayed events at an out-of-band end of stream); behaviour for logs above 12 entries beyond what the size-independent evaluation suggests; concurrent appends during a listing.",
 		Trusted:     []string{"golang.org/x/tools go/packages+go/ssa (v0.29.0)", "go-ipfs-log: Log.Values() is the clock-sorted traversal oldest first, GetEntries() the insertion-ordered map, OrderedMap.Reverse/Slice/Copy as documented", "bytes.Equal, cid.Cid.Bytes injective on distinct entries", "the rule file's finite-domain SSA evaluator (c13.go)"},
 		Assumptions: []string{"dependencies behave as documented; only module code is analysed", "distinct log entries have distinct hashes", "request byte fields are nil when unset (protobuf decoding)"},
-		Floors:      map[string]int{"D1": 2, "D2": 10, "D3": 66, "D4": 12, "D5": 4, "D6": 2},
+		Floors:      map[string]int{"D1": 2, "D2": 10, "D3": 66, "D4": 12, "D5": 4, "D6": 2, "D7": 2},
 		Run:         runC13,
 	})
 }
@@ -85,11 +87,12 @@ func c13IsEntryFunc(t types.Type) bool {
 // single-assignment spills, field reads, generated getters, conversions and negations.
 
 type c13Origin struct {
-	Kind  string // param | const | result | unknown
+	Kind  string // param | const | result | make | unknown
 	Fn    *ssa.Function
-	Index int    // parameter index in Fn.Params / result index of Call
-	Path  string // field path read from the parameter, e.g. ".SinceId"
-	Neg   bool   // an odd number of boolean negations was applied
+	Make  *ssa.MakeChan // for make: the channel creation
+	Index int           // parameter index in Fn.Params / result index of Call
+	Path  string        // field path read from the parameter, e.g. ".SinceId"
+	Neg   bool          // an odd number of boolean negations was applied
 	Const *ssa.Const
 	Call  *ssa.Call
 	Why   string
@@ -107,6 +110,8 @@ func (o c13Origin) String() string {
 		return neg + o.Const.String()
 	case "result":
 		return fmt.Sprintf("%sresult #%d of %s", neg, o.Index, calleeKey(o.Call.Common()))
+	case "make":
+		return "a channel made in " + fnName(o.Make.Parent())
 	}
 	return "unknown (" + o.Why + ")"
 }
@@ -270,6 +275,9 @@ func c13Resolve(v ssa.Value) c13Origin {
 			default:
 				return unknown("operator " + x.Op.String())
 			}
+		case *ssa.MakeChan:
+			o.Kind, o.Make = "make", x
+			return o
 		case *ssa.Extract:
 			call, ok := x.Tuple.(*ssa.Call)
 			if !ok {
@@ -1136,6 +1144,7 @@ func runC13(c *Ctx) {
 		c13D3(c, h)
 		c13D5Handler(c, h)
 		c13D6(c, h)
+		c13D7(c, h)
 	}
 }
 
@@ -1998,4 +2007,267 @@ func c13D6(c *Ctx, h *c13Handler) {
 		c.note("%s: the call of ListEvents also depends on %s (not a request parameter, not judged)", h.Name, strings.Join(other, ", "))
 	}
 	c.check(len(bad) == 0, "D6", construct, posOf(h.List), "previous events are listed exactly when since_now is unset (given accepted parameters)", strings.Join(bad, "; "))
+}
+
+// ---- D7: no replayed event is lost at the end of the replay ---------------------------
+
+// c13ChanOf: the make(chan) a channel operand denotes, nil when it is not a channel made in
+// the handler (subscription outputs, Done() channels, the listing's channel).
+func c13ChanOf(v ssa.Value) *ssa.MakeChan {
+	if o := c13Resolve(v); o.Kind == "make" && !o.Neg && o.Path == "" {
+		return o.Make
+	}
+	return nil
+}
+
+// c13CtxOf: v is result #idx of a context.With* call (0: the context, 1: its cancel function).
+func c13CtxOf(v ssa.Value, idx int) *ssa.Call {
+	o := c13Resolve(v)
+	if o.Kind != "result" || o.Index != idx || o.Path != "" {
+		return nil
+	}
+	if k := calleeKey(o.Call.Common()); !strings.HasPrefix(k, "context.With") || o.Call.Common().Signature().Results().Len() != 2 {
+		return nil
+	}
+	return o.Call
+}
+
+// c13DoneOf: v is X.Done() of a context made by a context.With* call; returns that call.
+func c13DoneOf(v ssa.Value) *ssa.Call {
+	o := c13Resolve(v)
+	if o.Kind != "result" || o.Index != 0 || !o.Call.Common().IsInvoke() || o.Call.Common().Method.Name() != "Done" {
+		return nil
+	}
+	return c13CtxOf(o.Call.Common().Value, 0)
+}
+
+// c13SelectBody: the block executed when state k of sel is chosen.
+func c13SelectBody(sel *ssa.Select, k int) *ssa.BasicBlock {
+	for _, ex := range extractsOf(sel, 0) {
+		if ex.Referrers() == nil {
+			continue
+		}
+		for _, r := range *ex.Referrers() {
+			bo, ok := r.(*ssa.BinOp)
+			if !ok || bo.Op != token.EQL || bo.Referrers() == nil {
+				continue
+			}
+			n, isC := constInt(bo.Y)
+			if !isC || int(n) != k {
+				continue
+			}
+			for _, r2 := range *bo.Referrers() {
+				if ifi, ok := r2.(*ssa.If); ok {
+					return ifi.Block().Succs[0]
+				}
+			}
+		}
+	}
+	return nil
+}
+
+func c13D7(c *Ctx, h *c13Handler) {
+	construct := h.Name + "+replay-handover"
+	sc := c13NewScope(h.Fn, 0) // the handler and its closures
+	// consumers: functions that call Send on the handler's stream parameter
+	consumers := map[*ssa.Function]bool{}
+	for _, fn := range sc.funcs {
+		for _, b := range fn.Blocks {
+			for _, in := range b.Instrs {
+				call, ok := in.(*ssa.Call)
+				if !ok || !call.Common().IsInvoke() || call.Common().Method.Name() != "Send" {
+					continue
+				}
+				if o := c13Resolve(call.Common().Value); o.Kind == "param" && o.Fn == h.Fn && o.Path == "" {
+					consumers[fn] = true
+				}
+			}
+		}
+	}
+	if len(consumers) == 0 {
+		c.undecided("D7", construct, h.Fn.Pos(), "no function of the handler calls Send on the handler's stream parameter: the send loop cannot be located")
+		return
+	}
+	type recvSite struct {
+		fn  *ssa.Function
+		sel *ssa.Select // nil: plain receive
+	}
+	sends := map[*ssa.MakeChan]map[*ssa.Function]bool{}
+	recvs := map[*ssa.MakeChan][]recvSite{}
+	recvBlocks := map[*ssa.MakeChan]map[*ssa.BasicBlock]bool{}
+	directList := false
+	note := func(m map[*ssa.MakeChan]map[*ssa.Function]bool, ch *ssa.MakeChan, fn *ssa.Function) {
+		if m[ch] == nil {
+			m[ch] = map[*ssa.Function]bool{}
+		}
+		m[ch][fn] = true
+	}
+	addRecv := func(ch *ssa.MakeChan, fn *ssa.Function, sel *ssa.Select, b *ssa.BasicBlock) {
+		recvs[ch] = append(recvs[ch], recvSite{fn, sel})
+		if recvBlocks[ch] == nil {
+			recvBlocks[ch] = map[*ssa.BasicBlock]bool{}
+		}
+		recvBlocks[ch][b] = true
+	}
+	isListing := func(v ssa.Value) bool {
+		o := c13Resolve(v)
+		return o.Kind == "result" && o.Call == h.List && o.Index == 0
+	}
+	for _, fn := range sc.funcs {
+		for _, b := range fn.Blocks {
+			for _, in := range b.Instrs {
+				switch x := in.(type) {
+				case *ssa.Send:
+					if ch := c13ChanOf(x.Chan); ch != nil {
+						note(sends, ch, fn)
+					}
+				case *ssa.UnOp:
+					if x.Op != token.ARROW {
+						continue
+					}
+					if ch := c13ChanOf(x.X); ch != nil {
+						addRecv(ch, fn, nil, b)
+					} else if consumers[fn] && isListing(x.X) {
+						directList = true
+					}
+				case *ssa.Select:
+					for _, st := range x.States {
+						ch := c13ChanOf(st.Chan)
+						switch {
+						case ch != nil && st.Dir == types.SendOnly:
+							note(sends, ch, fn)
+						case ch != nil:
+							addRecv(ch, fn, x, b)
+						case consumers[fn] && isListing(st.Chan):
+							directList = true
+						}
+					}
+				}
+			}
+		}
+	}
+	// hand-over channels: received by a consumer, sent by another function
+	type handover struct {
+		ch        *ssa.MakeChan
+		producers []*ssa.Function
+	}
+	var hos []handover
+	for ch, sites := range recvs {
+		cons := false
+		for _, s := range sites {
+			if consumers[s.fn] {
+				cons = true
+			}
+		}
+		if !cons {
+			continue
+		}
+		var prods []*ssa.Function
+		for fn := range sends[ch] {
+			if !consumers[fn] {
+				prods = append(prods, fn)
+			}
+		}
+		if len(prods) > 0 {
+			sort.Slice(prods, func(i, j int) bool { return prods[i].String() < prods[j].String() })
+			hos = append(hos, handover{ch, prods})
+		}
+	}
+	sort.Slice(hos, func(i, j int) bool { return hos[i].ch.Pos() < hos[j].ch.Pos() })
+	if len(hos) == 0 {
+		if directList {
+			c.ok("D7", construct, posOf(h.List), "the send loop reads the listing's channel itself: there is no intermediate hand-over that could drop replayed events")
+		} else {
+			c.undecided("D7", construct, h.Fn.Pos(), "the channel that carries replayed events to the send loop was not located (neither a channel made in the handler and fed by a goroutine, nor the listing's channel read by the send loop)")
+		}
+		return
+	}
+	var bad, undec, okmsg []string
+	for _, ho := range hos {
+		// contexts the producers cancel
+		cancelled := map[*ssa.Call]token.Pos{}
+		for _, p := range ho.producers {
+			for _, fn := range c13NewScope(p, 0).funcs {
+				for _, b := range fn.Blocks {
+					for _, in := range b.Instrs {
+						ci, ok := in.(ssa.CallInstruction)
+						if !ok || ci.Common().IsInvoke() || staticCallee(ci.Common()) != nil {
+							continue
+						}
+						if _, isB := ci.Common().Value.(*ssa.Builtin); isB {
+							continue
+						}
+						if x := c13CtxOf(ci.Common().Value, 1); x != nil {
+							cancelled[x] = posOf(ci)
+						}
+					}
+				}
+			}
+		}
+		// does a consumer answer the Done() of such a context, next to the hand-over channel, by returning?
+		outOfBand := ""
+		for _, s := range recvs[ho.ch] {
+			if !consumers[s.fn] || s.sel == nil {
+				continue
+			}
+			for k, st := range s.sel.States {
+				if st.Dir != types.RecvOnly {
+					continue
+				}
+				x := c13DoneOf(st.Chan)
+				if x == nil {
+					continue
+				}
+				cpos, isCancelled := cancelled[x]
+				if !isCancelled {
+					continue
+				}
+				// the Done branch ends the loop when a return is reachable from it without receiving from the channel again
+				body := c13SelectBody(s.sel, k)
+				ends := true
+				if body != nil {
+					ends = false
+					seen := map[*ssa.BasicBlock]bool{}
+					stack := []*ssa.BasicBlock{body}
+					for len(stack) > 0 {
+						b := stack[len(stack)-1]
+						stack = stack[:len(stack)-1]
+						if seen[b] || recvBlocks[ho.ch][b] {
+							continue
+						}
+						seen[b] = true
+						if len(b.Instrs) > 0 {
+							if _, isRet := b.Instrs[len(b.Instrs)-1].(*ssa.Return); isRet {
+								ends = true
+							}
+						}
+						stack = append(stack, b.Succs...)
+					}
+				}
+				if ends {
+					outOfBand = fmt.Sprintf("the forwarding goroutine ends the replay by calling the cancel function at %s and the send loop returns on that context's Done() (select at %s)", c.pos(cpos), c.pos(posOf(s.sel)))
+				}
+			}
+		}
+		where := c.pos(ho.ch.Pos())
+		size, isConst := constInt(ho.ch.Size)
+		switch {
+		case outOfBand == "":
+			okmsg = append(okmsg, fmt.Sprintf("channel made at %s: the end of the replay is not signalled around it (no cancel by its producer that the send loop answers by returning)", where))
+		case isConst && size == 0:
+			okmsg = append(okmsg, fmt.Sprintf("channel made at %s is a rendez-vous channel: every forwarded event has been taken by the send loop before the forwarder can cancel", where))
+		case isConst:
+			bad = append(bad, fmt.Sprintf("the channel made at %s buffers %d replayed events while %s: the cancel can overtake queued events, the send loop may pick Done() with the buffer non-empty and the stream then ends normally without its last events (the newest ones, or the oldest with reverse_order)", where, size, outOfBand))
+		default:
+			undec = append(undec, fmt.Sprintf("the channel made at %s has a capacity the analysis cannot evaluate while %s", where, outOfBand))
+		}
+	}
+	switch {
+	case len(bad) > 0:
+		c.fail("D7", construct, hos[0].ch.Pos(), "%s", strings.Join(bad, "; "))
+	case len(undec) > 0:
+		c.undecided("D7", construct, hos[0].ch.Pos(), "%s", strings.Join(undec, "; "))
+	default:
+		c.ok("D7", construct, hos[0].ch.Pos(), "%s", strings.Join(okmsg, "; "))
+	}
 }
